@@ -44,10 +44,16 @@ func (r *soupRunner) load(c *soupCase) {
 func (r *soupRunner) applyEvents(c *soupCase, s int) {
 	for _, it := range c.Intr {
 		if it.AtStep == s {
-			if it.NMI {
+			switch {
+			case it.NMI:
 				r.cpu.Interrupt = z80.NMIInterrupt()
-			} else {
-				r.cpu.Interrupt = &z80.Interrupt{Type: z80.IMType, Data: toBytes(it.Data)}
+			case len(it.Data) == 0:
+				r.cpu.Interrupt = z80.IM1Interrupt()
+			case len(it.Data) == 1 && s%2 == 0:
+				r.cpu.Interrupt = z80.IM2Interrupt(uint8(it.Data[0]))
+			default:
+				d := toBytes(it.Data)
+				r.cpu.Interrupt = z80.IM0Interrupt(d[0], d[1:]...)
 			}
 		}
 	}
@@ -93,11 +99,15 @@ func (r *soupRunner) runAll(c *soupCase, from int, tr *soupTrace) {
 }
 
 // clone rebuilds a brand-new CPU and memory from copies of the public state.
-func (r *soupRunner) cloneInto(dst *soupRunner) {
+func (r *soupRunner) cloneInto(dst *soupRunner, copyHALT bool) {
 	r.b.CopyTo(dst.b)
 	dst.cpu = z80.CPU{Memory: dst.b, IO: dst.b}
 	dst.cpu.States = r.cpu.States // copy of States
-	dst.cpu.HALT = r.cpu.HALT
+	if copyHALT {
+		// the host-visible HALT indication is not part of States; the property lets a CPU be rebuilt from
+		// States, the pending request and memory alone, so both variants must continue alike
+		dst.cpu.HALT = r.cpu.HALT
+	}
 	if r.cpu.Interrupt != nil {
 		it := *r.cpu.Interrupt
 		it.Data = append([]uint8(nil), r.cpu.Interrupt.Data...)
@@ -113,13 +123,20 @@ type c10Case struct {
 
 // c10Clone: the clone taken at boundary k must continue exactly like the original.
 func c10Clone(a, b *soupRunner, c *soupCase, k int, full *soupTrace) string {
+	if m := c10CloneV(a, b, c, k, full, true); m != "" {
+		return m
+	}
+	return c10CloneV(a, b, c, k, full, false)
+}
+
+func c10CloneV(a, b *soupRunner, c *soupCase, k int, full *soupTrace, copyHALT bool) string {
 	a.load(c)
 	for s := 0; s < k; s++ {
 		if _, _, _, p := a.stepOnce(c, s); p != nil {
 			return ""
 		}
 	}
-	a.cloneInto(b)
+	a.cloneInto(b, copyHALT)
 	var tr soupTrace
 	b.runAll(c, k, &tr)
 	if tr.panic != nil {
@@ -129,6 +146,9 @@ func c10Clone(a, b *soupRunner, c *soupCase, k int, full *soupTrace) string {
 		s := k + i
 		if s >= len(full.states) {
 			break
+		}
+		if !copyHALT {
+			tr.states[i].Halt = full.states[s].Halt // the indication itself is only carried along when copied
 		}
 		if tr.states[i] != full.states[s] {
 			g, w := tr.states[i], full.states[s]
@@ -349,4 +369,105 @@ func TestC10Concurrent(t *testing.T) {
 			col.Sample(rh, map[string]any{"goroutines": g, "reps": reps, "first_program": cases[0]})
 		}
 	})
+}
+
+// TestC10Boundary: for every implemented encoding, a CPU rebuilt right after the instruction - with a
+// request pending that the next Step accepts, or with none - continues exactly like the original.
+// This is where a hidden latch set by one instruction and consumed by the next Step would show.
+func TestC10Boundary(t *testing.T) {
+	col := stats.New("C10")
+	col.Sub = "boundary"
+	defer finish(t, col)
+	col.Rule = "boundary: every implemented encoding (930, enumerated) x rapid-drawn state: one Step, then {no request, NMI, maskable request valid for the mode with IFF1 forced on or left alone} is raised, " +
+		"a new CPU is built from States + request + memory (with and without the HALT indication) and both run 3 more Steps; non-trivial = request accepted right after the instruction"
+	a, b := &soupRunner{b: bus.New()}, &soupRunner{b: bus.New()}
+	focus := -1
+	rapid.Check(t, func(t *rapid.T) {
+		d := drawStep(t, false)
+		kind := rapid.IntRange(0, 3).Draw(t, "request")
+		for ei := range allEncodings {
+			if focus >= 0 && ei != focus {
+				continue
+			}
+			e := &allEncodings[ei]
+			code := e.bytes(d.ops)
+			c := soupCase{St: d.st, Code: toInts(code), MemSeed: d.memSeed ^ uint64(ei)<<40, IOSeed: d.ioSeed, Fill: d.fill, IOFill: d.ioFill, Steps: 4}
+			switch kind {
+			case 1:
+				c.Intr = []soupIntr{{AtStep: 1, NMI: true}}
+			case 2, 3:
+				var data []int
+				switch d.st.IM {
+				case 0:
+					data = []int{0xC7 | int(d.ops[1]&0x38)}
+				case 2:
+					data = []int{int(d.ops[2])}
+				}
+				c.Intr = []soupIntr{{AtStep: 1, Data: data}}
+				if kind == 3 {
+					c.St.IFF1, c.St.IFF2 = true, true
+				}
+			}
+			a.load(&c)
+			var full soupTrace
+			a.runAll(&c, 0, &full)
+			col.Eval(1)
+			if full.panic != nil {
+				continue
+			}
+			if msg := c10Clone(a, b, &c, 1, &full); msg != "" {
+				focus = ei
+				violation(t, "C10", "det", c10Case{Soup: c, Snapshot: 1}, "clone continues exactly like the original", e.name+": "+msg)
+			}
+			if len(full.pend) >= 2 && len(c.Intr) > 0 && !full.pend[1] {
+				col.Distinct(stats.Hash(uint64(ei), stateHash(&c.St), uint64(kind)))
+				col.Label("request-accepted-right-after-instruction")
+			}
+		}
+	})
+}
+
+// TestC10Constructors: requests built by the package's constructors are independent values - what one
+// CPU does with its request never changes what another CPU (or a later request) sees.
+func TestC10Constructors(t *testing.T) {
+	col := stats.New("C10")
+	col.Sub = "constructors"
+	defer finish(t, col)
+	run := func(req *z80.Interrupt, im int, memSeed uint64) (z80.States, uint64) {
+		r := &soupRunner{b: bus.New()}
+		r.b.Reset(memSeed, 1, -1, -1)
+		r.cpu = z80.CPU{Memory: r.b, IO: r.b}
+		r.cpu.PC, r.cpu.SP, r.cpu.IM, r.cpu.IFF1, r.cpu.IFF2 = 0x4000, 0x9000, im, true, true
+		r.cpu.IR.Hi = 0x77
+		r.cpu.Interrupt = req
+		r.cpu.Step()
+		r.cpu.Step()
+		return r.cpu.States, logHash(r.b.Log)
+	}
+	for b := 0; b < 256; b++ {
+		for _, seed := range []uint64{env.Seed, env.Seed + 77} {
+			// reference results with hand-built requests
+			w0s, w0l := run(&z80.Interrupt{Type: z80.IMType, Data: []uint8{uint8(b)}}, 0, seed)
+			w2s, w2l := run(&z80.Interrupt{Type: z80.IMType, Data: []uint8{uint8(b)}}, 2, seed)
+			// another CPU consumes constructor-built requests carrying the same byte in every mode ...
+			run(z80.IM2Interrupt(uint8(b)), 2, seed^1)
+			run(z80.IM0Interrupt(uint8(b)), 0, seed^2)
+			run(z80.IM2Interrupt(uint8(b)), 0, seed^3)
+			// ... and constructor-built requests must still behave like the hand-built ones
+			g0s, g0l := run(z80.IM0Interrupt(uint8(b)), 0, seed)
+			g2s, g2l := run(z80.IM2Interrupt(uint8(b)), 2, seed)
+			col.Eval(2)
+			col.DistinctN(2)
+			if g0s != w0s || g0l != w0l {
+				violation(t, "C10", "det", map[string]any{"constructor": "IM0Interrupt", "byte": b, "seed": seed}, "same as a hand-built request",
+					fmt.Sprintf("IM0Interrupt(%#02x) behaves differently after other CPUs used requests with the same byte", b))
+			}
+			if g2s != w2s || g2l != w2l {
+				violation(t, "C10", "det", map[string]any{"constructor": "IM2Interrupt", "byte": b, "seed": seed}, "same as a hand-built request",
+					fmt.Sprintf("IM2Interrupt(%#02x) behaves differently after other CPUs used requests with the same byte", b))
+			}
+		}
+	}
+	col.Rule = "constructors: for all 256 bytes, IM0Interrupt(b) / IM2Interrupt(b) accepted by a fresh CPU after other CPUs consumed constructor-built requests with the same byte must behave like hand-built requests"
+	col.Sample(1, map[string]any{"constructor": "IM2Interrupt", "byte": 255})
 }
